@@ -401,8 +401,13 @@ class DiHypergraph:
 
         if strong:
             for edge in edge_neighbors["in"].union(edge_neighbors["out"]):
+                members = self._edge[edge]
                 del self._edge[edge]
                 del self._edge_attr[edge]
+                for node in members["in"].difference({n}):
+                    self._node[node]["out"].remove(edge)
+                for node in members["out"].difference({n}):
+                    self._node[node]["in"].remove(edge)
         else:  # weak removal
             for edge in edge_neighbors["in"]:
                 self._edge[edge]["out"].remove(n)
